@@ -369,7 +369,7 @@ type c07SignerSpec struct {
 	fake *fakeSigner
 }
 
-var c07BadNames = []string{"", "has space", "plus+sign", "tab\tname", "nbsp name", "bad\xffutf8"}
+var c07BadNames = []string{"", "has space", "plus+sign", "tab\tname", "nbsp name", "bad\xffutf8", "ctl\x01name", "esc\x1bname", "nul\x00name", "us\x1f"}
 
 // c07SignReference computes the exact bytes note.Sign must produce, or that it must fail.
 func c07SignReference(n *note.Note, signers []c07SignerSpec) (want []byte, fail bool) {
@@ -662,6 +662,10 @@ func (p *c07Party) sign(res *core.Result, who string, n *note.Note) []byte {
 	if err != nil {
 		res.Fail("C07", "sign-succeeds", "Sign failed on valid input", "%s: %v", who, err)
 		return nil
+	}
+	if _, ok := ref.ParseNote(got); !ok {
+		res.Fail("C07", "sign-produces-openable", "Sign produced a message that is not a well-formed signed note", "%s: %q", who, clip(string(got)))
+		return got
 	}
 	if !bytes.Equal(got, want) && !bytes.Equal(c07NormalSigLines(n.Text, got), c07NormalSigLines(n.Text, want)) {
 		res.Fail("C07", "sign-output", "Sign output is not the documented encoding", "%s: got %q want %q", who, clip(string(got)), clip(string(want)))
